@@ -8,6 +8,15 @@ restore the file. Prints one line per break."""
 import subprocess, sys, os, json
 WT = '/tmp/wt-c01'
 BREAKS = [
+ ('cp-flush-skips-scalar-caches', 'amd/timing/cp/cpMiddleware.go',
+  '\tfor _, port := range m.L1SCaches {\n\t\tm.flushCache(port)\n\t}\n\n\tfor _, port := range m.L1VCaches {', '\tfor _, port := range m.L1VCaches {', 1),
+ ('cp-flush-skips-vector-caches', 'amd/timing/cp/cpMiddleware.go',
+  '\tfor _, port := range m.L1VCaches {\n\t\tm.flushCache(port)\n\t}\n\n\tfor _, port := range m.L2Caches {', '\tfor _, port := range m.L2Caches {', 1),
+ ('cp-flush-skips-l2-caches', 'amd/timing/cp/cpMiddleware.go',
+  '\tfor _, port := range m.L2Caches {\n\t\tm.flushCache(port)\n\t}\n\n\tm.currFlushRequest = req', '\tm.currFlushRequest = req', 1),
+ ('driver-no-flush-before-h2d', 'amd/driver/memorycopy.go',
+  '\tif m.needFlushing(queue.Context, cmd.Dst, uint64(binary.Size(cmd.Src))) {\n\t\tm.sendFlushRequest(cmd)\n\t}\n\n', '', 1),
+ ('driver-needflushing-ignores-buffers-read-by-kernels', 'amd/driver/driver.go', None, None, 0),
  ('unified-filter-row-stride-uses-numWGY', 'amd/driver/driver.go',
   'wg.IDY*int(numWGX) +', 'wg.IDY*int(numWGY) +', 1),
  ('unified-filter-x-y-swapped', 'amd/driver/driver.go',
